@@ -244,6 +244,10 @@ def e2_ops():
             ops.append(dict(op="drop", tgt=tgt, inplace=inplace, key="first"))
             ops.append(dict(op="drop", tgt=tgt, inplace=inplace, key="last-by-name"))
             ops.append(dict(op="drop", tgt=tgt, inplace=inplace, key="absent"))
+            if tgt == "R":  # the documented aliases: remove = drop, extend = expand_by
+                ops.append(dict(op="drop", tgt=tgt, inplace=inplace, key="first", alias=True))
+                ops.append(dict(op="expand_by", tgt=tgt, inplace=inplace, dim="e", alias=True))
+                ops.append(dict(op="expand_by", tgt=tgt, inplace=inplace, dim="clash", alias=True))
         for p in POOL:
             ops.append(dict(op="union", tgt=tgt, other=p))
             ops.append(dict(op="intersect", tgt=tgt, other=p))
@@ -328,7 +332,7 @@ def apply_op(st, op, check):
                 call = lambda: obj.insert(pos, dim, inplace=inplace)
             else:
                 new_model = mod + [ml]
-                call = lambda: obj.expand_by([dim], inplace=inplace)
+                call = (lambda: obj.extend([dim], inplace=inplace)) if op.get("alias") else (lambda: obj.expand_by([dim], inplace=inplace))
     elif name == "drop":
         if op["key"] == "absent":
             must_raise = True
@@ -338,7 +342,7 @@ def apply_op(st, op, check):
             call = lambda: obj.drop("a", inplace=inplace)
         elif op["key"] == "first":
             new_model = mod[1:]
-            call = lambda: obj.drop(mod[0], inplace=inplace)
+            call = (lambda: obj.remove(mod[0], inplace=inplace)) if op.get("alias") else (lambda: obj.drop(mod[0], inplace=inplace))
         else:
             new_model = mod[:-1]
             call = lambda: obj.drop(S.NAMES[mod[-1]], inplace=inplace)
